@@ -1,6 +1,7 @@
 package props
 
 import (
+	"fmt"
 	"hash/fnv"
 	"net/http"
 	"net/http/httptest"
@@ -201,12 +202,22 @@ func c05Exec(in []string) []string {
 	path := proto.UnB(in[2])
 	mix := c05Mix(in)
 	recs := make([]denco.Record, len(keys))
+	// the value of a record is the caller's business — also an untyped nil: on a quarter of the tables ONE record
+	// carries nil (being found and the value are two things); it is reported under its index like the others
+	nilAt := -1
+	if len(keys) > 0 && mix>>12&3 == 2 {
+		nilAt = int(mix>>14) % len(keys)
+	}
 	for i, k := range keys {
+		var v interface{} = i
+		if i == nilAt {
+			v = nil
+		}
 		// a Record is a plain struct: written out as often as made by NewRecord
 		if mix&1 == 1 {
-			recs[i] = denco.Record{Key: k, Value: i}
+			recs[i] = denco.Record{Key: k, Value: v}
 		} else {
-			recs[i] = denco.NewRecord(k, i)
+			recs[i] = denco.NewRecord(k, v)
 		}
 	}
 	rt := denco.New()
@@ -296,7 +307,14 @@ func c05Exec(in []string) []string {
 			vals[i] = params.Get(absent) + params.Get(p.Name)
 		}
 	}
-	return []string{"F", proto.N(data.(int)), proto.L(names), proto.L(vals)}
+	idx, isInt := data.(int)
+	if !isInt {
+		if data != nil || nilAt < 0 {
+			panic(fmt.Sprintf("C05 harness: Lookup handed back a value no record has: %#v", data))
+		}
+		idx = nilAt
+	}
+	return []string{"F", proto.N(idx), proto.L(names), proto.L(vals)}
 }
 
 var c05Lits = []string{"a", "b", "ab", "x", "-", "=", "é", "a.b", "c", "a-b"}
@@ -352,7 +370,11 @@ func c05Key(r *proto.Rng, weird bool) string {
 		case 7:
 			if r.Chance(1, 8) {
 				// a long literal: what follows it sits beyond position 255 of the path
-				sb.WriteString(strings.Repeat(r.Pick("l", "lo", "ab"), 130+r.Intn(8)))
+				n := 130 + r.Intn(8)
+				if r.Chance(1, 3) {
+					n = 1020 + r.Intn(10) // … or beyond positions 1023 / 2047 (whatever width a packed position is given)
+				}
+				sb.WriteString(strings.Repeat(r.Pick("l", "lo", "ab"), n))
 			} else {
 				sb.WriteString(r.Pick(c05Lits...))
 			}
